@@ -145,6 +145,7 @@ pub struct Features {
     pub party_walls: usize,
     pub rotated: bool,
     pub gaps: usize,
+    pub interior_windows: usize,
 }
 
 pub fn generate(seed: u64) -> String {
@@ -357,6 +358,12 @@ pub fn generate_with_features(seed: u64) -> (String, Features) {
                     let _ = writeln!(body, "                  LOCATION      = SPACE-V{}  ", v);
                     let _ = writeln!(body, "                        ..");
                     construction_block(&mut body, CONS.part_v, CONS.part_v, None);
+                    // an interior window (glazed partition): unusual but legal
+                    if rng.chance(1, 4) {
+                        window_block(&mut body, &format!("{}_Med{:03}_V", sname, n_med), &mut rng, len, floor_h, 0, 1, &gaps);
+                        feat.windows += 1;
+                        feat.interior_windows += 1;
+                    }
                     continue;
                 }
                 if below_ground {
@@ -381,6 +388,11 @@ pub fn generate_with_features(seed: u64) -> (String, Features) {
                     let _ = writeln!(body, "                  LOCATION      = SPACE-V{}  ", v);
                     let _ = writeln!(body, "                        ..");
                     construction_block(&mut body, CONS.party, CONS.party, None);
+                    if rng.chance(1, 5) {
+                        window_block(&mut body, &format!("{}_MED{:03}_V", sname, n_med), &mut rng, len, floor_h, 0, 1, &gaps);
+                        feat.windows += 1;
+                        feat.interior_windows += 1;
+                    }
                     continue;
                 }
                 n_ext += 1;
